@@ -27,7 +27,7 @@ def nontrivial(sc):
 
 def run(pid, tier):
     rep = lib.Report('C05', tier)
-    rep.cov['rule'] = ('cases = one unit CMD <list> against a handler signature: signatures of 0..S typed readers (11 kinds x mandatory/optional), lists of 0..L items from 18 item '
+    rep.cov['rule'] = ('cases = one unit CMD <list> against a handler signature: signatures of 0..S typed readers (11 kinds x mandatory/optional), lists of 0..L items from 22 item '
                        'texts (decimal, negative, real, with known / unknown suffix, #H, ON/OFF, choice names, unknown mnemonic, both string kinds, block, expression, exponent form) '
                        'with 3 white-space variants around commas, plus lists ending in a malformed fragment; (S,L) = (1,2)+(2,1) quick, (2,2)+(1,3) thorough; plus array readers of 6 kinds (capacity 0..3, mandatory or not, a reader before / after) on the same lists; enumerated by TLC, '
                        'executed, validated by TLC; non-trivial = list length differs from the signature, white space before a comma, or a non-plain-decimal item')
